@@ -154,7 +154,10 @@ def selftest(pid, wd, tpath):
             muts.append(("C01-htlc-trimmed-as-dust", m))
             break
     for k, r in enumerate(recs):
-        if r["ev"] == "msg" and r.get("kind") == "revoke_and_ack":
+        # (one that is delivered later on: a revocation lost with its connection would not be missed)
+        if r["ev"] == "msg" and r.get("kind") == "revoke_and_ack" and any(
+                x["ev"] == "deliver" and x.get("kind") == "revoke_and_ack" and x["run"] == r["run"] and x.get("from") == r["from"]
+                and x.get("secret_point") == r.get("secret_point") for x in recs[k + 1:k + 400]):
             muts.append(("C05-raa-dropped", recs[:k] + recs[k + 1:]))
             break
     for k, r in enumerate(recs):
@@ -187,6 +190,27 @@ def selftest(pid, wd, tpath):
                              "chan": r["chan"], "secret_point": 1, "next_point": 2, "run": r["run"], "seq": 0})
             muts.append(("C10-stale-channel-resumed", m))
             break
+    for k, r in enumerate(recs):
+        if r["ev"] == "rt_sweeper":
+            m = clone()
+            m[k]["equal"] = False
+            muts.append(("C12-sweeper-copy-differs", m))
+            break
+    for k, r in enumerate(recs):
+        if r["ev"] == "rt_scorer":
+            m = clone()
+            m[k]["answers_equal"] = False
+            muts.append(("C12-scorer-copy-differs", m))
+            break
+    for k, r in enumerate(recs):
+        # a refused event that is never handed over again
+        if r["ev"] == "event_refused" and r.get("kind") in ("PaymentSent", "PaymentFailed", "PaymentClaimable"):
+            m = [x for j, x in enumerate(recs) if not (j > k and x["run"] == r["run"] and x["ev"] == "event" and x.get("kind") == r["kind"]
+                                                       and x.get("hash") == r["hash"] and x.get("node") == r["node"])
+                 and not (x["run"] == r["run"] and x["ev"] == "crash")]
+            if len(m) != len(recs):
+                muts.append(("C10-refused-event-never-redelivered", m))
+                break
     rejected = 0
     names = []
     for name, m in muts:
@@ -208,7 +232,7 @@ def selftest(pid, wd, tpath):
             for r in sel:
                 f.write(json.dumps(r) + "\n")
         _, fails = vlib.validate_trace(pid, "ChanTrace", "ChanTrace.cfg", p, max_failures=1, tag="st")
-        names.append(name)
+        names.append(name if fails else name + " (NOT REJECTED)")
         if fails:
             rejected += 1
     if not muts or rejected != len(muts):
